@@ -32,17 +32,18 @@ PROPS = {
         ],
     },
     "C13": {
-        "suites": [{"name": "fxb", "quick": 1500, "thorough": 40000}],
+        "suites": [{"name": "fxb", "quick": 6000, "thorough": 40000}],
         "level_text": "(delay + reverb half) Lean theorems about the models of effect/delay.rs and effect/reverb.rs (+comb.rs, "
                       "all_pass.rs) over the reals, for all inputs, parameters, line lengths and partitions: dry mix is the identity, "
                       "silence stays silent, chunk-free (the delay's sub-chunking by the line length equals the per-frame delay line; "
-                      "with an abstract feedback-effect chain), linearity in (state, input), geometric bounds for the comb / all-pass "
-                      "lines, no fault at >= 196 Hz; the same definitions run as a Float twin and agree bit-for-bit with kira's "
+                      "with an abstract feedback-effect chain), superposition and scaling in (state, input) for any parameter states, "
+                      "BIBO bounds for the comb / all-pass / delay lines and an invariant bound for the whole reverb network (fixed "
+                      "parameters), no fault at >= 196 Hz; the same definitions run as a Float twin and agree bit-for-bit with kira's "
                       "DelayBuilder / ReverbBuilder effects on every generated op",
         "level_note": "theorems over ideal real arithmetic; chunk-freeness needs stagnant parameters (a tweening parameter is "
                       "interpolated per process call in kira: covered by the bit-exact correspondence only); nested feedback effects are "
                       "abstract in the theorems and probe effects (gain / one-pole) in the correspondence; long-run finiteness of the full "
-                      "reverb is bounded by theorem only per line, and exercised by the finite_output oracle",
+                      "reverb is proved for fixed parameters only (C13_reverb_bounded_partial) and exercised by the finite_output oracle otherwise",
         "assumptions": [
             "delay line of at least one frame (delay_time >= 1/fs): the excluded point panics in kira (known finding)",
             "process slices no longer than the internal buffer size (as the mixer guarantees)",
@@ -51,7 +52,7 @@ PROPS = {
         ],
     },
     "C14": {
-        "suites": [{"name": "fxb", "quick": 1500, "thorough": 40000}],
+        "suites": [{"name": "fxb", "quick": 6000, "thorough": 40000}],
         "level_text": "(delay + reverb half) Lean theorems over the reals: the delay's impulse response is an echo at every multiple "
                       "of L = floor(delay*fs) frames with amplitude fb^k shaped k times by the feedback chain and zero elsewhere; the "
                       "reverb model is the Freeverb network (8 parallel combs + 4 series all-passes per channel, sizes "
